@@ -18,7 +18,7 @@ func crossRef(repo string) map[string]interface{} {
 		{"go", "vet", "./..."},
 		{"staticcheck", "./..."},
 		{"errcheck", "./..."},
-		{"nilaway", "./..."},
+		{"nilaway", "-include-pkgs=github.com/np-guard/netpol-analyzer", "./..."},
 	}
 	for _, t := range tools {
 		ctx, cancel := context.WithTimeout(context.Background(), 8*time.Minute)
